@@ -52,7 +52,8 @@ class _Canon(ast.NodeTransformer):
             return node.args[0]
         if name in COMMUTATIVE and not node.keywords:
             node.args = sorted(node.args, key=ast.unparse)
-        node.keywords = [k for k in node.keywords if k.arg != "dtype"]
+        if name in ("arange", "zeros", "ones", "empty", "linspace", "full"):
+            node.keywords = [k for k in node.keywords if k.arg != "dtype"]
         return node
 
     def visit_BinOp(self, node):
